@@ -26,6 +26,10 @@ var errWouldBlock = errors.New("memconn: read would block (the specification say
 var errHang = errors.New("memconn: wait timed out")
 var errStopped = errors.New("memconn: the writer returned")
 
+// errTransient is what an injected fault of the underlying connection returns (a timeout-like, non-fatal error:
+// the memConn stays usable).
+var errTransient = errors.New("memconn: injected transient i/o error")
+
 // memConn is one end of an in-memory connection whose wire is owned by the driver.
 // What the local party writes is handed, one Write call at a time, to onWrite (SecretConnection.Write
 // issues exactly one conn.Write per sealed frame).  What it reads comes from `in`, a list of segments
@@ -45,10 +49,15 @@ type memConn struct {
 	nread   int      // bytes handed to the reader so far
 	served  [][]byte // pieces handed to the reader since the driver last cleared it (one entry per segment touched)
 	keep    bool     // record `served`
+	// injected faults of the underlying connection (SecretConn.tla WriteFaultOp / ReadFaultOp)
+	wfIn    int                         // > 0: the wfIn-th Write from now fails ...
+	wfPass  int                         // ... after wfPass of its bytes went out
+	onFault func(full []byte, pass int) // receives the failed Write (all of its bytes, and how many went out)
+	rfAfter int                         // >= 0: the underlying reads fail after handing over rfAfter more bytes
 }
 
 func newMemConn(name string, block bool) *memConn {
-	c := &memConn{name: name, block: block}
+	c := &memConn{name: name, block: block, rfAfter: -1}
 	c.cond = sync.NewCond(&c.mu)
 	return c
 }
@@ -97,12 +106,22 @@ func (c *memConn) Read(p []byte) (int, error) {
 		if c.closed {
 			return 0, io.ErrClosedPipe
 		}
+		if c.rfAfter == 0 {
+			c.rfAfter = -1
+			return 0, errTransient
+		}
 		if len(c.in) > 0 {
 			if len(p) == 0 {
 				return 0, nil
 			}
 			h := c.in[0]
+			if c.rfAfter > 0 && len(p) > c.rfAfter {
+				p = p[:c.rfAfter]
+			}
 			n := copy(p, h)
+			if c.rfAfter > 0 {
+				c.rfAfter -= n
+			}
 			if n == len(h) {
 				c.in = c.in[1:]
 			} else {
@@ -133,6 +152,17 @@ func (c *memConn) Write(p []byte) (int, error) {
 		return 0, io.ErrClosedPipe
 	}
 	b := append([]byte(nil), p...)
+	if c.wfIn > 0 {
+		c.wfIn--
+		if c.wfIn == 0 {
+			pass, ff := c.wfPass, c.onFault
+			c.mu.Unlock()
+			if ff != nil {
+				ff(b, pass)
+			}
+			return pass, errTransient
+		}
+	}
 	f := c.onWrite
 	if f == nil {
 		c.out = append(c.out, b)
